@@ -164,6 +164,30 @@ class Check:
             self.engine_errors.append("%s: interpreter recursion" % group)
             return []
         live = [s for s in sessions if s.outcome != "infeasible"]
+        # a path on which the real code raises an exception the harness does not expect: the path must be infeasible
+        # (obligation `no-exception`); a feasible one is reported with the solver's input, like any refuted obligation
+        rp_any = None
+        for s in live:
+            for ob in s.obligations:
+                if ob.meta and ob.meta.get("replay"):
+                    rp_any = ob.meta["replay"]
+                    break
+            if rp_any:
+                break
+        for s in live:
+            if s.outcome == "raise":
+                exc = getattr(s, "exception", None)
+                try:
+                    ename = exc.cls.name if hasattr(exc, "cls") else type(exc).__name__
+                    emsg = str(getattr(exc, "attrs", {}).get("args", ""))[:120] if hasattr(exc, "attrs") else str(exc)[:120]
+                except Exception:
+                    ename, emsg = "Exception", ""
+                pcs = [q for q in s.pc if isinstance(q, z3.ExprRef)]
+                goal = z3.Not(z3.And(*pcs)) if pcs else False
+                meta = {"expect": "proved", "note": "the real code raises %s %s on this path" % (ename, emsg)}
+                if rp_any:
+                    meta["replay"] = rp_any
+                s.obligations.append(Obligation("no-exception[%s]" % ename, "exception", goal, list(s.facts), [], meta))
         multi = len(live) > 1
         for k, s in enumerate(live):
             self.paths += 1
@@ -173,6 +197,7 @@ class Check:
                 if n not in self.notes:
                     self.notes.append(n)
             seen = set()
+            allnames = self.__dict__.setdefault("_allnames", set())
             rename = {}
             for ob in s.obligations:
                 if ob.goal is True and ob.kind == "safety":
@@ -181,10 +206,11 @@ class Check:
                 if multi:
                     nm += "/path=%d" % k
                 base, j = nm, 1
-                while nm in seen:
+                while nm in seen or nm in allnames:
                     j += 1
                     nm = "%s~%d" % (base, j)
                 seen.add(nm)
+                allnames.add(nm)
                 rename[ob.name] = nm
                 ob.name = nm
                 self.obligations.append(ob)
@@ -202,6 +228,8 @@ class Check:
         """run the groups of another property's harness whose names match `pattern` under the prefix `label`: the contracts
         this property's obligations instantiate are then discharged by this check as well (a change that breaks such a
         contract is reported by every property whose proof uses it)"""
+        if getattr(self, "_include", None) is not None:
+            return          # includes of an included harness belong to that property, not to this one
         keep = (list(self.assumptions), list(self.configs), list(self.lemmas), list(self.bounded), list(self.native_results))
         self._include = (label, pattern)
         try:
@@ -238,9 +266,13 @@ class Check:
         # obligations whose goal evaluated to a concrete True during symbolic execution (structural facts: object
         # identity, call counts, shapes) are discharged by evaluation, without a solver
         conc = [k for k, ob in enumerate(obs) if ob.goal is True]
-        sobs = [ob for ob in obs if ob.goal is not True]
-        sspecs = [sp for ob, sp in zip(obs, specs) if ob.goal is not True]
+        concf = [k for k, ob in enumerate(obs) if ob.goal is False]      # decided false during symbolic execution (typing, shapes)
+        sobs = [ob for ob in obs if ob.goal is not True and ob.goal is not False]
+        sspecs = [sp for ob, sp in zip(obs, specs) if ob.goal is not True and ob.goal is not False]
         results = discharge.run_obligations(sobs, sspecs)
+        for k in concf:
+            results[obs[k].name] = {"name": obs[k].name, "status": "refuted", "info": {}, "backend": "evaluation",
+                                    "time": 0.0, "log": [], "names": [], "head": "(concrete: evaluated to False)"}
         for k in conc:
             results[obs[k].name] = {"name": obs[k].name, "status": "proved", "info": None, "backend": "evaluation",
                                     "time": 0.0, "log": [], "names": [], "head": "(concrete: evaluated to True)"}
